@@ -284,7 +284,7 @@ def replay(case):
         return bad, {"table": case["table"]}
     from ..pool import SubReporter
 
-    sub = SubReporter(max_violations=10)
+    sub = SubReporter(max_violations=10**9)
     sk = SK.make("hll", p, 0)
     reader = None
     if case.get("handle"):
